@@ -2,7 +2,7 @@
    The theorems are about ordering and gating in the model. PARTIAL: that OpenSSL actually encrypts, verifies the
    chain, or reports a missing close-notify as an error is runtime behaviour, observed by the correspondence
    (raw bytes ahead of the peer's TLS engine), not provable here. *)
-From LibFtp Require Import Bytes Decimal Reply Endpoint Ascii DataConn DataConn_Proofs Client Client_Proofs Login_Proofs Transfer_Proofs Transfer_More Modes_Proofs Ctl_Proofs History_Proofs History2_Proofs Session_Proofs.
+From LibFtp Require Import Bytes Decimal Reply Endpoint Ascii DataConn DataConn_Proofs Client Client_Proofs Login_Proofs Transfer_Proofs Transfer_More Tls_Failures Modes_Proofs Ctl_Proofs History_Proofs History2_Proofs Session_Proofs.
 Local Open Scope N_scope.
 
 (* every command line is written inside TLS exactly when the TLS layer of the control socket is up; between the
@@ -145,3 +145,41 @@ Theorem C11_whole_tls_session : forall w0 h p s srest g a r1 cs rss xss rq xq,
   w_open w' = false /\ w_ssl w' = false /\ w_tls_up w' = false /\ w_data w' = None /\ held w' = O /\ w_script w' = srest.
 Proof. exact whole_session_tls. Qed.
 Print Assumptions C11_whole_tls_session.
+
+(* the failure half, on whole connect calls, whatever login was asked for (Tls_Failures.v): AUTH TLS refused - the call
+   returns the greeting and the refusal, the trace ends with the reply to AUTH TLS: no USER, no PASS, no handshake *)
+Theorem C11_auth_refused_sends_nothing_more : forall w h p login s srest g r1 rs a,
+  login_ok login ->
+  w_open w = false -> w_script w = s :: srest -> s_reachable s = true -> c_tls (w_cfg w) = true ->
+  r_now (s_greeting s) = [RReply g] -> r_close_after (s_greeting s) = false -> code g <> 421 -> code g <> 120 ->
+  is_negative g = false ->
+  s_reactions s = r1 :: rs -> simple_reaction r1 a -> is_negative a = true ->
+  exists w', step w (AConnect h p login) = (OReturn (RvReplies [g; a]), w') /\
+    insync w' rs /\ w_ssl w' = false /\ w_tls_up w' = false /\ w_cfg w' = w_cfg w /\
+    skipn (length (w_trace w)) (w_trace w') =
+      [ECtl (CConnect h p true)] ++ block (w_obs w) (OConnected h p) ++ [ERecv (w_ord w) g] ++ block (w_obs w) (OReply g) ++
+      block (w_obs w) (ORequest AUTH_TLS) ++ [EWire false (S (w_ord w)) AUTH_TLS] ++ [ERecv (S (w_ord w)) a] ++
+      block (w_obs w) (OReply a).
+Proof. exact connect_auth_refused. Qed.
+Print Assumptions C11_auth_refused_sends_nothing_more.
+
+(* AUTH TLS accepted and the handshake fails (certificate refused, protocol error): the call throws, the trace ends with
+   the failed handshake; and from then on every command is refused locally *)
+Theorem C11_handshake_failure_sends_nothing_more : forall w h p login s srest g r1 rs a,
+  login_ok login ->
+  w_open w = false -> w_script w = s :: srest -> s_reachable s = true -> c_tls (w_cfg w) = true ->
+  r_now (s_greeting s) = [RReply g] -> r_close_after (s_greeting s) = false -> code g <> 421 -> code g <> 120 ->
+  is_negative g = false ->
+  s_reactions s = r1 :: rs -> simple_reaction r1 a -> is_negative a = false -> r_tls_ok r1 = false ->
+  exists w', step w (AConnect h p login) = (OThrow, w') /\
+    w_tls_up w' = false /\ w_ssl w' = true /\ w_data w' = w_data w /\
+    skipn (length (w_trace w)) (w_trace w') =
+      [ECtl (CConnect h p true)] ++ block (w_obs w) (OConnected h p) ++ [ERecv (w_ord w) g] ++ block (w_obs w) (OReply g) ++
+      block (w_obs w) (ORequest AUTH_TLS) ++ [EWire false (S (w_ord w)) AUTH_TLS] ++ [ERecv (S (w_ord w)) a] ++
+      block (w_obs w) (OReply a) ++ [ECtl (CSetSsl true); ECtl (CHandshake false O)].
+Proof. exact connect_handshake_fails. Qed.
+Print Assumptions C11_handshake_failure_sends_nothing_more.
+
+Theorem C11_after_failed_handshake_nothing_is_sent : forall w line, w_ssl w = true -> w_tls_up w = false -> do_send w line = None.
+Proof. exact after_failed_handshake_nothing_is_sent. Qed.
+Print Assumptions C11_after_failed_handshake_nothing_is_sent.
